@@ -39,7 +39,9 @@ fn method_bytes<M: crate::serialize::IntoAmqpClass>(channel: u16, m: M) -> Vec<u
 fn content_bytes(channel: u16, body: &[u8]) -> Vec<u8> {
     let mut buf = OutputBuffer::empty();
     buf.push_content_header(channel, 60, body.len(), &AmqpProperties::default());
-    buf.push_content_body(channel, body);
+    if !body.is_empty() {
+        buf.push_content_body(channel, body);
+    }
     buf[0..].to_vec()
 }
 
@@ -93,7 +95,8 @@ impl Broker {
                     self.next_delivery_tag += 1;
                     let d = basic::Deliver { consumer_tag: tag.clone(), delivery_tag: self.next_delivery_tag, redelivered: false, exchange: "x".to_string(), routing_key: "k".to_string() };
                     self.reply(n, B::Deliver(d));
-                    self.inbox.extend(content_bytes(n, b"hello"));
+                    // (messages with an empty body - complete with their header frame - and with a body alternate)
+                    self.inbox.extend(content_bytes(n, if self.next_delivery_tag % 2 == 0 { b"" } else { b"hello" }));
                 }
             }
             AMQPClass::Basic(B::Cancel(c)) => {
@@ -108,7 +111,7 @@ impl Broker {
                     self.next_delivery_tag += 1;
                     let ok = basic::GetOk { delivery_tag: self.next_delivery_tag, redelivered: false, exchange: "x".to_string(), routing_key: "k".to_string(), message_count: 0 };
                     self.reply(n, B::GetOk(ok));
-                    self.inbox.extend(content_bytes(n, b"got"));
+                    self.inbox.extend(content_bytes(n, if self.next_delivery_tag % 2 == 0 { b"" } else { b"got" }));
                 }
             }
             AMQPClass::Confirm(Cf::Select(s)) => {
